@@ -18,6 +18,12 @@ func validateMethods(lookup *method.Index[generatedMethod]) error {
 				return fmt.Errorf("Invalid struct field mapping on method:\n    %s\n    %s\n\nField mappings like goverter:map or goverter:ignore may only be set on struct or struct pointers.\nSee https://goverter.jmattheis.de/guide/configure-nested", genMethod.Location, genMethod.ID)
 			}
 		}
+		if genMethod.Explicit && genMethod.EnumMapping != nil && (len(genMethod.EnumMapping.Map) > 0 || len(genMethod.EnumMapping.Transformers) > 0) {
+			source, target := genMethod.Source, genMethod.Target
+			if source == nil || target == nil || !source.Enum(&genMethod.Enum).OK || !target.Enum(&genMethod.Enum).OK {
+				return fmt.Errorf("Invalid enum mapping on method:\n    %s\n    %s\n\nEnum mappings like goverter:enum:map or goverter:enum:transform may only be set on methods that convert an enum to an enum,\nthey would be ignored here.\nSee https://goverter.jmattheis.de/guide/enum", genMethod.Location, genMethod.ID)
+			}
+		}
 	}
 	return nil
 }
